@@ -265,10 +265,15 @@ CLAIMS["C13"] = (
     "value for a string-like column type (the MySQL list including ENUM and SET -- fixed in /repo -- JSON, BIT, the BLOBs, NEWDECIMAL) is "
     "written with a valid length prefix: total length = prefix + payload, the prefix decodes (lenenc) to the payload length and is never "
     "the NULL marker 0xfb; or an error is returned; on success the bytes already in the row are unchanged. AppendUint16 / AppendUint32 "
-    "append the little-endian bytes.",
+    "append the little-endian bytes. BuildBinaryResultset (nested loop invariants, any number of rows and columns): a row whose column "
+    "count differs from the field list is rejected; every stored row starts with the 0x00 header byte and has room for the "
+    "(n + 7 + 2) / 8 bitmap bytes; in the bitmap buffer that is copied into the row, bit j + 2 is set exactly when column j is NULL, the "
+    "bits 0 and 1 and all bits beyond the columns are clear, and a NULL column appends no value bytes.",
     "NOT decided: that the payload bytes after the prefix equal the value (quantified obligation through two appends in bit-vector mode does "
     "not discharge within the budget and is not claimed); floats, decimals, DATE / DATETIME / TIMESTAMP / TIME encodings (strconv, time, "
-    "decimal libraries; helpers have assumed frame-only contracts); RowData.ParseText; BuildBinaryResultset's NULL bitmap; that an integer "
+    "decimal libraries; helpers have assumed frame-only contracts); RowData.ParseText; that the bitmap buffer lands at row[1:] of the "
+    "stored row (the per-bit statement on stored rows was provable only by one solver configuration in 9-24 s and was left out rather "
+    "than risk an alarm on the unchanged tree); that an integer "
     "fits the declared column width (ParseText parses every width with bitSize 64).",
     "DESIGN.md section 4, C13")
 
